@@ -52,6 +52,8 @@ def finish(prop, tier, seed, run, wall, rule, explore=False, extra_cov=None, wri
         "sanitizer_flavors": sorted(set(c.flavor for c, _ in run.results)) if run.results else [],
         "exhaustive": exhaustive,
     }
+    if not cov["samples"]:
+        cov["samples"] = [c.describe() for c, _ in run.results[:5]]
     if extra_cov:
         cov.update(extra_cov)
     if explore:
